@@ -255,6 +255,9 @@ func applyPvMoveBonus(moves []rankedMove, candidateLine *Line, depth int) {
 	}
 }
 func sortMoves(moves []rankedMove) {
+	if verifStableSort(moves) {
+		return
+	}
 	slices.SortFunc(moves,
 		//desc sort by ranking
 		func(a, b rankedMove) int {
